@@ -55,4 +55,8 @@ class PropRunStream(RunStream):
         fails = relabel_d11(self.prop, case, obs, fails)
         if self.keep_prefixes is not None:
             fails = [f for f in fails if f.signature.startswith(tuple(self.keep_prefixes)) or f.signature.startswith(self.prop + "/")]
+        # a failure carrying another property's signature (the oracles share code) is that property's business: its own
+        # check runs the same kind of stream and reports it; here it would only duplicate a finding under the wrong id
+        import re
+        fails = [f for f in fails if f.signature.startswith(self.prop + "/") or not re.match(r"^C\d\d/", f.signature)]
         return fails
